@@ -20,7 +20,7 @@ pub static DEF: PropertyDef = PropertyDef {
            delivered, string/choice-text sites refused with an error and never reaching the peer; unbound without fallback: first continue returns Err, no panic. \
            Non-trivial = at least one site's call was committed under the safe binding; distinct = hash of program+history.",
     assumptions: &["external peers are pure functions of their arguments (what look-ahead-safe means)"],
-    runs_quick: 2500,
+    runs_quick: 10000,
     runs_thorough: 150000,
     exhaustive_note: "four binding configurations for every sampled history",
     generate,
@@ -38,6 +38,9 @@ fn generate(_corpus: &Corpus, tier: Tier, run: u64, rng: &mut Rng) -> Option<Cas
     g.externals = true;
     g.external_heavy = true;
     g.random = false;
+    // `TURNS_SINCE(-> k)` inside choice text is compiled as text plus a divert (compiler quirk), which re-runs
+    // content; the at-most-once assumption about sites needs programs without it
+    g.turns = false;
     g.shuffles = false;
     g.loops = false; // a site must run at most once per play-through
     g.strings = true;
